@@ -14,7 +14,7 @@ SHRINK = True
 ASSUMPTIONS = [
     "integer timestamps after loading; non-negative durations; no kernel is literally named 'others'",
     "the quantile cut position j0 is recomputed by the harness with the same pandas call on the sorted per-name sums and handed to the model; the theorem C05_aggr quantifies over every j0 and every tie order",
-    "mean is compared with sum/count within 1e-9 relative, percentages with round(100*sum/total, 1) within 0.051; stddev is not part of the property and not compared",
+    "mean is compared with sum/count within 1e-9 relative, percentages within 0.05 of the unrounded 100*sum/total (any tie rule accepted); stddev is not part of the property and not compared",
     "which of several equal-sum names becomes 'others' is the implementation's choice: the comparison accepts any choice consistent with descending order",
 ]
 TYPE_ORDER = ["COMPUTATION", "COMMUNICATION", "MEMORY"]
@@ -132,8 +132,8 @@ def compare(obs, mod) -> List[str]:
         if got[0] != t:
             out.append(f"type row {lab!r}: impl sum={got[0]} model={t}")
         elif total > 0 and lab in c["types"]:
-            e = round(100 * (t / total), 1)
-            if got[1] == "nan" or abs(float(got[1]) - e) > 0.051:
+            e = 100 * (t / total)
+            if got[1] == "nan" or abs(float(got[1]) - e) > 0.05 + 1e-9:
                 out.append(f"type row {lab!r}: impl pct={got[1]} expected={e}")
     for lab in c["types"]:
         if lab not in exp:
